@@ -102,17 +102,26 @@ theorem asRel_normFile (x : Bytes) (h : rcomps x ≠ []) : asRel (normFile x) = 
   rw [h1, show slashS = [slash] from rfl, hasSuffix_of_getLast_ne _ _ (normFile_getLast x h)]
   simp
 
-/-- AsRelativePath of a normalised directory destination keeps the trailing slash
-    (unless the whole relative name is a single byte) -/
-theorem asRel_normDir (x : Bytes) :
-    asRel (normDir x) = if (jn x).length > 1 then jn x ++ [slash] else jn x := by
+theorem jn_ne_dot (x : Bytes) (h : rcomps x ≠ []) : jn x ≠ dotS := by
+  intro e
+  have hs := splitOn_joinWith slash (rcomps x) h (fun c hc => (rcomps_proper x c hc).2.2.2)
+  unfold jn at e
+  rw [e] at hs
+  have : splitOn slash dotS = [dotS] := by decide
+  rw [this] at hs
+  have : dotS ∈ rcomps x := by rw [← hs]; simp
+  exact (rcomps_proper x _ this).2.1 rfl
+
+/-- AsRelativePath of a normalised directory destination keeps the trailing slash (for every name:
+    the one-character exception was the defect repaired by fc7dedc) -/
+theorem asRel_normDir (x : Bytes) (h : rcomps x ≠ []) : asRel (normDir x) = jn x ++ [slash] := by
   unfold asRel
   simp only []
   rw [toNix_normDir]
   have h1 : trimLeft slash (normFile x) = jn x := by rw [normFile_eq]; exact trimLeft_slash_jn x
   have h2 : hasSuffix (normDir x) slashS = true := by unfold normDir; exact hasSuffix_snoc _ _
   rw [h1, h2]
-  simp
+  simp [jn_ne_nil x h, jn_ne_dot x h]
 
 theorem trimRight_snoc_slash (t : Bytes) (h : t.getLast? ≠ some slash) : trimRight slash (t ++ [slash]) = t := by
   unfold trimRight
@@ -177,10 +186,8 @@ theorem pathOfName_explicit (f : Fmt) (hf : f = .deb ∨ f = .ipk) (d : Bool) (x
   · simp only [keyOf, Bool.false_eq_true, if_false]
     rw [asRel_normFile x h, pathOf_slash_jn x h]
   · simp only [keyOf, if_true]
-    rw [asRel_normDir]
-    split
-    · exact pathOf_slash_jn_slash x h
-    · exact pathOf_slash_jn x h
+    rw [asRel_normDir x h]
+    exact pathOf_slash_jn_slash x h
 
 /-- apk/arch relative names -/
 theorem pathOfName_relative (f : Fmt) (hf : f = .apk ∨ f = .arch) (d : Bool) (x : Bytes) (h : rcomps x ≠ []) :
@@ -193,10 +200,7 @@ theorem pathOfName_relative (f : Fmt) (hf : f = .apk ∨ f = .arch) (d : Bool) (
   · simp only [keyOf, Bool.false_eq_true, if_false]
     rw [asRel_normFile x h, pathOf_jn x h]
   · simp only [keyOf, if_true]
-    rw [asRel_normDir]
-    split
-    · rw [pathOf_jn_slash x h]
-    · rw [pathOf_jn x h]
+    rw [asRel_normDir x h, pathOf_jn_slash x h]
 
 /-- rpm names are the cleaned absolute destination -/
 theorem toNix_keyOf (d : Bool) (x : Bytes) (h : rcomps x ≠ []) : toNix (keyOf d x) = pathOf (keyOf d x) := by
